@@ -448,6 +448,10 @@ func c09(ctx *core.Ctx) {
 			p.cfg.Domains = append(p.cfg.Domains, origin)
 			p = rebuildCorsPair(p, router)
 		}
+		if ci == 0 && rt.DefaultContainerFree() {
+			p = onDefaultContainer(p, router)
+			ctx.Count("configurations_on_the_package_level_container", 1)
+		}
 		ctx.Case(ci, core.JSON(p.cfg)+" table="+core.JSON(p.t))
 		rr := ctx.Rand(ci, "req")
 		urls := urlsFor(rr, p.t, 12)
@@ -608,5 +612,22 @@ func rebuildCorsPair(p *corsPair, router string) *corsPair {
 	p.cors = p.cfg.build(p.with, p.tap)
 	p.with.Filter(p.cors.Filter)
 	p.with.Filter(rt.SelFilter("after-cors"))
+	return p
+}
+
+// onDefaultContainer rebuilds the filtered side on the package-level container: CORS filter WITHOUT a Container
+// (it then asks restful.DefaultContainer for the routable methods), registered with restful.Filter / restful.Add.
+func onDefaultContainer(p *corsPair, router string) *corsPair {
+	bo := rt.DefaultBuild(router)
+	bo.Dynamic = true
+	bo.Default = true
+	restful.DefaultContainer.Router(restful.CurlyRouter{})
+	if router == "jsr311" {
+		restful.DefaultContainer.Router(restful.RouterJSR311{})
+	}
+	p.cors = p.cfg.build(nil, p.tap)
+	restful.Filter(p.cors.Filter)
+	restful.Filter(rt.SelFilter("after-cors"))
+	p.with, p.wsWith = rt.BuildWS(p.t, bo)
 	return p
 }
